@@ -402,28 +402,33 @@ example : ∃ G, SimpleG.ofEdges 3 [(2, 1), (1, 2), (3, 2)] = .ok G ∧ G.edges 
 
 /-! ## `CompleteBipartiteGraph` -/
 
-/-- the value used by the families satisfies the bipartite invariant; the class ignores every
-update (`add_edge` is `pass`: even an out-of-range pair is not refused — no side effect, but no
-`ValueError` either); its closed-form views are the views of that value -/
+/-- the value used by the families satisfies the bipartite invariant; no update changes the
+object; its closed-form views are the views of that value -/
 theorem cbip_consistent (G : CBipG) (ops : List GOp) :
-    G.toBipG.Inv ∧ G.run ops = G ∧ (∀ u v, G.step (.addEdge u v) = (G, .ok)) ∧
+    G.toBipG.Inv ∧ G.run ops = G ∧
     G.edges = G.toBipG.edges ∧ (∀ u v, G.hasEdge u v = G.toBipG.hasEdge u v) ∧
     G.numberOfEdges = G.toBipG.numberOfEdges ∧
     (∀ e, e ∈ G.edges ↔ 1 ≤ e.1 ∧ e.1 ≤ G.l ∧ 1 ≤ e.2 ∧ e.2 ≤ G.r) ∧
     (∀ u : Int, 1 ≤ u ∧ u ≤ G.l → G.toBipG.rightNeighbors u = .ok (G.rightNeighbors u)) ∧
     (∀ v : Int, 1 ≤ v ∧ v ≤ G.r → G.toBipG.leftNeighbors v = .ok (G.leftNeighbors v)) :=
-  ⟨BipG.inv_complete G.l G.r, G.run_state ops, G.step_addEdge, G.edges_eq, G.hasEdge_eq,
+  ⟨BipG.inv_complete G.l G.r, G.run_state ops, G.edges_eq, G.hasEdge_eq,
    G.numberOfEdges_eq, G.mem_edges, fun _ hu => G.rightNeighbors_eq hu, fun _ hv => G.leftNeighbors_eq hv⟩
 
-/-- the full statement of "illegal insertions are refused" for this class … -/
-def CBipRefusesIllegal : Prop :=
-  ∀ (G : CBipG) (u v : Int), ¬ BipG.Valid G.l G.r u v → (G.step (.addEdge u v)).2 = .raised .valueError
+/-- insertions (finding D33, fixed): a pair outside `1..L × 1..R` is refused with `ValueError` and
+the object is unchanged; a legal pair — already an edge — is a no-op; `add_edges_from` raises
+iff some pair is illegal and changes nothing -/
+theorem cbip_rejected (G : CBipG) (u v : Int) (es : List (Int × Int)) :
+    (¬ BipG.Valid G.l G.r u v → G.step (.addEdge u v) = (G, .raised .valueError)) ∧
+    (BipG.Valid G.l G.r u v → G.step (.addEdge u v) = (G, .ok) ∧ G.hasEdge u v = true) ∧
+    (G.step (.addEdgesFrom es)).1 = G ∧
+    ((G.step (.addEdgesFrom es)).2 = .ok ↔ ∀ e ∈ es, BipG.Valid G.l G.r e.1 e.2) ∧
+    ((G.step (.addEdgesFrom es)).2 = .ok ∨ (G.step (.addEdgesFrom es)).2 = .raised .valueError) :=
+  ⟨G.step_addEdge_invalid, fun h => ⟨G.step_addEdge_valid h, by
+      simp only [CBipG.hasEdge, decide_eq_true_eq]; exact h⟩,
+   (G.step_addEdgesFrom es).1, (G.step_addEdgesFrom es).2.1, (G.step_addEdgesFrom es).2.2⟩
 
-/-- … is false of the faithful model (finding D30: `CompleteBipartiteGraph(2,3).add_edge(9,9)`
-returns normally); `cbip_consistent` is the part that holds: no side effect, views consistent -/
-theorem cbip_illegal_insert_not_refused : ¬ CBipRefusesIllegal := fun h => by
-  have := h ⟨2, 3⟩ 9 9 (by decide)
-  cases this
+example : ¬ BipG.Valid (CBipG.mk 2 3).l (CBipG.mk 2 3).r 9 9 ∧ BipG.Valid (CBipG.mk 2 3).l (CBipG.mk 2 3).r 2 3 := by
+  decide
 
 example : (CBipG.mk 2 3).edges = [(1, 1), (1, 2), (1, 3), (2, 1), (2, 2), (2, 3)] := by decide
 
